@@ -259,12 +259,24 @@ Fixpoint scan (ok : track -> sop -> sres -> bool) (t : track) (h : list (sop * s
   | (o, r) :: rest => ok t o r && scan ok (track_step t o r) rest
   end.
 
+(** a document that does not exist (never imported, or removed and not imported again) shows no
+    settings at any time -- whatever refused calls were made on it in between *)
+Definition c16_absent_ok (t : track) (o : sop) (r : sres) : bool :=
+  match o with
+  | SGetPolicy ns | SGetPeers ns =>
+      match assoc_get ns (tr_caps t) with
+      | None => obs_empty r
+      | Some _ => true
+      end
+  | _ => true
+  end.
+
 Definition spec_ok (c : case) : bool :=
   let h := c_hist c in
   if c_prop c =? 7 then scan c07_ok tr0 h
   else if c_prop c =? 13 then c13_pairs h && c13_encodes h
   else if c_prop c =? 15 then scan c15_ok tr0 h
-  else if c_prop c =? 16 then c16_scan (4 * length (c_ids c) + 2) tr0 h []
+  else if c_prop c =? 16 then c16_scan (4 * length (c_ids c) + 2) tr0 h [] && scan c16_absent_ok tr0 h
                               && forallb (fun p => match snd p with RBadFingerprint => false | _ => true end) h
   else if c_prop c =? 17 then scan c17_ok tr0 h
   else if c_prop c =? 18 then c18_scan (N.to_nat (nth 0 (c_ids c) 0)) h [] && c13_pairs h
